@@ -90,6 +90,34 @@ def run(run_, ctx):
             run_.check(("fixint::%s<T>" % wrap) in l and ("fixint::%s<T>" % ("BE" if wrap == "LE" else "LE")) not in l,
                        "W", k, "`%s` module must go through the %s wrapper" % (mod, wrap), f.where(), found=l)
     run_.floor("W", 4)
+    # C13.U / C13.ST: "exactly size_of bytes in the chosen order" needs, besides the adapters, that postcard writes/reads serde's `[u8; N]`
+    # (a tuple of N u8) as N raw bytes and nothing else, and that storage keeps those bytes: the tuple / u8 cells of the wire-format tables
+    # (C02/C03) and the storage summaries are re-run under this property (as C11.U / C20.U do for theirs)
+    import c02
+    import c03
+    from c20 import _Sub
+    helpers = ctx.helpers("A")
+    sub = _Sub(run_, "U")
+    CELLS_SER = {"serialize_tuple", "serialize_u8"}
+    CELLS_DE = {"deserialize_tuple", "deserialize_u8", "next_element_seed"}
+    for f in sorted(pc.fns, key=lambda f: (f.impl_self or "", f.impl_trait or "", f.name)):
+        if f.dk != "AssocFn":
+            continue
+        sf = f.impl_self or ""
+        if sf == c02.SELF_TY and ((f.impl_trait == c02.SER_TRAIT and f.name in CELLS_SER) or f.impl_trait == "serde_core::ser::SerializeTuple"):
+            c02.check_method(sub, F, helpers, f)
+        if (c03.is_deser_self(sf) and f.impl_trait == c03.DE_TRAIT and f.name in CELLS_DE) or \
+                (sf.startswith("de::deserializer::SeqAccess<") and f.impl_trait == "serde_core::de::SeqAccess" and f.name in CELLS_DE):
+            c03.check_method(sub, F, helpers, f)
+    run_.floor("U", 7)
+    run_groups(run_, ctx, [
+        ("ST", "ser_slice", lambda k: "Index" not in k, "slice storage"),
+        ("ST", "ser_storage", lambda k: "Index" not in k and "Size" not in k, "vector/extend storage"),
+        ("ST", "ser_writer", None, "writer storage"),
+        ("ST", "de_slice", None, "slice source"),
+        ("ST", "de_reader", None, "reader source"),
+    ])
+    run_.floor("ST", 30)
     run_.explanation = (
         "All 36 functions of postcard::fixint are summarised path by path from MIR; to_le_bytes/to_be_bytes are modelled "
         "byte-exactly so the array handed to serde is visible as [(v as u8), (v>>8 as u8), ...] (reversed for BE). Each macro "
